@@ -2725,11 +2725,20 @@ pub(crate) fn constrain_type(expr: &mut TypedExpr, expected: &Type) -> Result<()
     }
     match (&mut expr.inner, expected) {
         (ExprEnum::ArrayLiteral(elems), Type::Array(elem_ty, _) | Type::ArrayConst(elem_ty, _)) => {
-            for elem in elems {
+            for elem in elems.iter_mut() {
                 constrain_type(elem, elem_ty)?;
             }
+            // (the element type is the type that the elements actually have now: an element
+            // that cannot take the expected type - e.g. a range where signed elements are
+            // expected - must not be hidden by overwriting the type of the whole literal)
             if let Type::Array(actual, _) | Type::ArrayConst(actual, _) = &mut expr.ty {
-                overwrite_ty_if_necessary(actual, elem_ty);
+                match elems.iter().find(|elem| &elem.ty != elem_ty.as_ref()) {
+                    Some(elem) => {
+                        **actual = elem.ty.clone();
+                        return Ok(());
+                    }
+                    None => overwrite_ty_if_necessary(actual, elem_ty),
+                }
             }
         }
         (
@@ -2738,6 +2747,10 @@ pub(crate) fn constrain_type(expr: &mut TypedExpr, expected: &Type) -> Result<()
         ) => {
             constrain_type(elem, elem_ty)?;
             if let Type::Array(actual, _) | Type::ArrayConst(actual, _) = &mut expr.ty {
+                if &elem.ty != elem_ty.as_ref() {
+                    **actual = elem.ty.clone();
+                    return Ok(());
+                }
                 overwrite_ty_if_necessary(actual, elem_ty);
             }
         }
@@ -2746,8 +2759,19 @@ pub(crate) fn constrain_type(expr: &mut TypedExpr, expected: &Type) -> Result<()
                 constrain_type(elem, elem_ty)?;
             }
             if let Type::Tuple(actual_elem_tys) = &mut expr.ty {
-                for (actual, expected) in actual_elem_tys.iter_mut().zip(elem_tys) {
-                    overwrite_ty_if_necessary(actual, expected);
+                let mut mismatch = false;
+                for ((actual, expected), elem) in
+                    actual_elem_tys.iter_mut().zip(elem_tys).zip(elems.iter())
+                {
+                    if &elem.ty != expected {
+                        *actual = elem.ty.clone();
+                        mismatch = true;
+                    } else {
+                        overwrite_ty_if_necessary(actual, expected);
+                    }
+                }
+                if mismatch {
+                    return Ok(());
                 }
             }
         }
